@@ -138,7 +138,7 @@ def run(ctx):
                 c = idx.canon(n.func, f_.module) or ""
                 if c.startswith(("subprocess.", "os.system", "os.popen", "os.spawn", "os.exec")):
                     n_sites += 1
-                    r3.check(f_.key in allowed, f"{f_.module.relpath}::{f_.qual}::{c}", "subprocess used by an allowed owner",
+                    r3.check(f_.key in allowed or res.owned_by(f_, ["gwf.backends.utils:call"]), f"{f_.module.relpath}::{f_.qual}::{c}", "subprocess used by an allowed owner (or a private helper only it calls)",
                              f"{c} is used outside backends.utils.call: a scheduler command run here escapes the failure detection", loc(n, f_.module))
     # every Ops method talks to the scheduler through call()
     for mod, cname in (("gwf.backends.slurm", "SlurmOps"), ("gwf.backends.sge", "SGEOps"), ("gwf.backends.lsf", "LSFOps")):
@@ -155,6 +155,19 @@ def run(ctx):
         r3.check(out[0] == "raised" and out[1] == "BackendError", f"{m.module.relpath}::{m.qual}::query-failure", f"a failing {'/'.join(sorted(set(out[2]))) or 'query'} propagates as BackendError",
                  f"with the scheduler's queue/accounting query failing, {cname}.get_job_states {out[0]} {out[1]!r}: tracked jobs that are still pending then look unknown, "
                  "and the next run submits them a second time", m.where)
+    # a query that "succeeds" with a document cut off half-way (qstat -xml from a busy qmaster) is a failed query too: it must not read as "nothing is queued"
+    from .evalhelpers import eval_garbled_query, eval_call_once
+    out_g, m_g = eval_garbled_query(ctx, "gwf.backends.sge", "SGEOps")
+    if out_g[0] != "unsupported":
+        r3.check(out_g[0] == "raised", f"{m_g.module.relpath}::{m_g.qual}::truncated-answer", "a truncated qstat document raises (the run stops) instead of reading as an empty queue",
+                 f"with qstat's XML answer cut off half-way SGEOps.get_job_states returns {out_g[1]!r}: every tracked job then looks unknown and the next run submits duplicates of "
+                 "jobs that are still queued", m_g.where)
+    once, once_unsup = eval_call_once(ctx)
+    if once is not None:
+        for d_ in once:
+            r3.violation(ccon + "::once", d_, call_f.where)
+        if not once:
+            r3.ok(ccon + "::once", "a submit command is started once; a time limit (if any) kills and reaps the child before the failure is reported", call_f.where)
     for failing in ("sacct", "squeue"):
         _r, err, _q, _s, m = eval_slurm_states(ctx, 5, True, fail=failing)
         r3.check(err is not None and err.startswith("BackendError"), f"{m.module.relpath}::{m.qual}::{failing}-failure", f"a failing {failing} alone propagates as BackendError",
